@@ -177,7 +177,12 @@ def decoder_reach(repo: Repo):
                 seen.add(cur)
                 todo.extend(g.get(cur, ()))
             out.setdefault(e.key, set()).update(seen)
+            FAMILY_OF[e.key] = f"pykdebugparser.trace_handlers.{fam}"
     return out, g
+
+
+FAMILY_OF: dict = {}        # registry key -> the family module that registers it (the identity of a finding does not depend
+#                             on which file of the family the helper that reads the host table lives in)
 
 
 WITNESS = {"errno.errorcode": "errno 35 renders EDEADLOCK on Linux, EAGAIN on Darwin",
@@ -224,7 +229,7 @@ def check(repo: Repo, run: Run) -> None:
             scopes = sorted({sc for sc, _ in sites})
             lines = sorted({ln for _, ln in sites})
             who = f"the output of decoder {inst!r}" if not inst.startswith("@") else f"{inst[1:]}"
-            run.ob("R1", mod.name, inst, api, False,
+            run.ob("R1", FAMILY_OF.get(inst, mod.name), inst, api, False,
                    f"{who} depends on {api}, a table of the running interpreter's platform (read in {', '.join(scopes[:4])}, "
                    f"lines {lines[:4]}): the names shown are the host's, not Darwin's",
                    facts={"lines": lines, "functions": scopes}, line=lines[0], witness=WITNESS.get(api))
